@@ -106,6 +106,9 @@ def gen_instance(r, wide=False):
         gens = gens[: r.randint(1, len(gens))]
         probs = gen_probs(r, len(gens), dyadic)
         order = sorted(range(len(gens)), key=lambda i: -probs[i])       # posterior() lists by decreasing probability
+        if r.random() < 0.35:
+            # the class documents no order of the haplotypes inside a genotype: copies of one haplotype need not be adjacent
+            gens = [tuple(r.sample(list(g), len(g))) for g in gens]
         posts.append((ploidy, [gens[i] for i in order], [probs[i] for i in order]))
     return n_base, pool, dyadic, posts
 
